@@ -133,6 +133,11 @@ func parseDocument(parser *Parser) (*ast.Document, error) {
 	)
 	start := parser.Token.Start
 	for {
+		// Document : Definition+ -- the end of the input only ends a
+		// document that has at least one definition
+		if peek(parser, lexer.EOF) && len(nodes) == 0 {
+			return nil, unexpected(parser, lexer.Token{})
+		}
 		if skp, err := skip(parser, lexer.EOF); err != nil {
 			return nil, err
 		} else if skp {
